@@ -205,9 +205,15 @@ fn run_case(ctx: &Ctx, case: &DocCase, st: &mut Stats) -> Outcome {
         return Outcome::Discard;
     };
     let _ = ctx;
-    match check_doc(case, &doc, st) {
-        Ok(()) => Outcome::Pass,
-        Err(f) => Outcome::Fail(f),
+    // a panic inside load / serialize is a failure of this property as well (and C02's / C12's): it must not take the
+    // harness down
+    let mut st2 = Stats::new();
+    let r = no_panic(|| check_doc(case, &doc, &mut st2));
+    st.merge(st2);
+    match r {
+        Ok(Ok(())) => Outcome::Pass,
+        Ok(Err(f)) => Outcome::Fail(f),
+        Err(p) => Outcome::Fail(Failure::new(format!("panic:{}", panic_site(&p)), format!("load / serialize of a generated document panicked: {p}"), case.to_json())),
     }
 }
 
